@@ -473,12 +473,31 @@ def run_writer(spec):
             wrap(n.cond)
     pre = {}
     wr_nodes = []
-    for n in list(g.nodes):
-        if n.type.is_cond:
-            fo = n.follow["if"]
-            wr_nodes.append("%s:%d:%s:%s:%s" % (rep(n), n.num, rep(n.true), rep(n.false), rep(fo) if fo is not None else "-"))
+
+    def wname(n):
+        # a LoopBlock and the node it wraps are two objects: the loop is l<id>, the wrapped node keeps its name
+        if n is None:
+            return "-"
+        if isinstance(n, bb.LoopBlock):
+            inner = rep(n)
+            return "l%d" % (int(inner[1:]) + (1000 if inner[0] == "s" else 0))
+        return rep(n)
+
+    def wdump(n):
+        if isinstance(n, bb.LoopBlock):
+            lt = "pre" if n.looptype.is_pretest else "post" if n.looptype.is_posttest else "endless" if n.looptype.is_endless else "none"
+            wr_nodes.append("%s:%d:%s:%s:%s:%s:%s:%s" % (wname(n), n.num, lt, wname(n.cond), wname(n.latch),
+                                                         wname(n.true), wname(n.false), wname(n.follow["loop"])))
+            wdump(n.cond)
+        elif n.type.is_cond:
+            wr_nodes.append("%s:%d:%s:%s:%s" % (wname(n), n.num, wname(n.true), wname(n.false), wname(n.follow["if"])))
+        elif n.type.is_stmt:
+            sucs = g.sucs(n)
+            wr_nodes.append("%s:%d:%s" % (wname(n), n.num, wname(sucs[0]) if len(sucs) == 1 else "-"))
         else:
             wr_nodes.append("%s:%d" % (n.name, n.num))
+    for n in list(g.nodes):
+        wdump(n)
     for n in list(g.nodes):
         if n.type.is_cond:
             pre[rep(n)] = (tree(n), rep(n.true), rep(n.false), type(n).__name__)
@@ -489,7 +508,7 @@ def run_writer(spec):
         w.visit_node(g.entry)
     except Exception as e:  # noqa
         return {"exc": "writer:" + type(e).__name__, "prints": prints, "pre": pre}
-    return {"prints": prints, "pre": pre, "text": str(w), "wr": "wr %s %s" % (rep(g.entry), ",".join(wr_nodes))}
+    return {"prints": prints, "pre": pre, "text": str(w), "wr": "wr %s %s" % (wname(g.entry), ",".join(wr_nodes))}
 
 
 # ----------------------------------------------------------------------------------------------- case checks
@@ -572,8 +591,9 @@ def check_case(ck: Check, spec, want_writer=True, o2=True):
                         "printed condition sends an input to another successor than the original chain of branches",
                         None, {"text": pr["text"], "reaches": exp}, {"value": b, "true": pr["tf"][0], "false": pr["tf"][1]})
                 break
-    if acyclic(spec) and not spec.get("stmts"):
-        # the visit discipline (which conditions are printed, in which order, which ones negated-and-swapped)
+    if (acyclic(spec) and not spec.get("stmts")) or spec.get("family") == "loop":
+        # the visit discipline (which conditions are printed, in which order, which ones negated-and-swapped);
+        # loop nodes (visit_loop_node) on the structured while / do-while / break families
         reqs.append(r["wr"]); real.append(" ".join(order))
         if info.get("reprinted"):
             ck.fail({"spec": spec, "stage": "print"}, "a condition is printed more than once on an acyclic graph",
@@ -730,7 +750,7 @@ def gen_loop(shape, k, rng):
         if shape == "B":
             conds.insert(0, [None, None, "s2", "e0"])
         stmts = {"W": ["c0", "c0"], "D": ["c0"], "B": ["c0", "c0", "c1"]}[shape]
-        spec = {"conds": conds, "exits": 1, "stmts": stmts, "entry": "s0"}
+        spec = {"conds": conds, "exits": 1, "stmts": stmts, "entry": "s0", "family": "loop"}
         r = reachable(spec)
         if any("c%d" % i not in r for i in range(n)) or body not in r or "e0" not in r:
             continue
@@ -871,6 +891,9 @@ def run(ck: Check):
                           "set-iteration order of MergeNodes' lpreds/ldests is not modelled (the merge trace is observed and replayed)")
     ck.notes.append("wall: gen+lake build+audit (includes waiting for the shared build lock) %.1fs, correspondence+search %.1fs"
                     % (t1 - t0, time.time() - t1))
+    ck.partial.append("print-once premise of merged_conditions_route_as_original: proved per visited node for cond/stmt/return/"
+                      "loop nodes (writer_prints_each_node_once); switch and try nodes are outside the visit model, and with loop "
+                      "nodes object-level uniqueness needs the stated injectivity premise (loop_self_latch_printed_twice)")
     ck.notes.append("O2 (whole if/else text) is applied to acyclic graphs only; loops are covered at graph and printed-condition level")
 
 
